@@ -239,10 +239,14 @@ struct ScriptRun {
 static bool call_stateless(const Call &c) { return c.op == C_LOCATE || c.op == C_EXTRACT || c.op == C_LOCRANK || c.op == C_EXTRANK || c.op == C_NUM || c.op == C_MAXLEN; }
 // `resume_from`: calls before this index were already answered by an earlier (dead) child; only the
 // stateful ones (iterator open/next/close) are re-executed, silently, to rebuild iterator state
+// isolated children re-arm their CPU-time watchdog here: the budget is per call, so that a long script on a loaded
+// machine is never mistaken for a hang (a hang is one call that does not return)
+static void (*g_per_call_hook)() = nullptr;
 static ScriptRun run_script(StringDictionary *d, const std::vector<Call> &s, const std::vector<char> *skip = nullptr, int report_fd = -1, size_t resume_from = 0) {
   ScriptRun o; ClientState cs;
   for (size_t i = 0; i < s.size(); i++) {
     if (skip && (*skip)[i]) { o.digests.push_back(0); continue; }
+    if (g_per_call_hook) g_per_call_hook();
     if (i < resume_from) { o.digests.push_back(0); if (!call_stateless(s[i])) exec_call(d, cs, s[i]); continue; }
     if (report_fd >= 0) { uint32_t m[2] = {0xB0B0B0B0u, (uint32_t)i}; ssize_t w = write(report_fd, m, sizeof m); (void)w; }
     CallResult r = exec_call(d, cs, s[i]);
